@@ -35,6 +35,9 @@ pub struct Gen {
     pub serde_ok: bool,
     /// keys of other maps (so that operands of set operations share keys)
     pub extra_keys: Vec<EP>,
+    /// pending keys of a "chain burst": every ancestor of one full-length key (a path with a node
+    /// at every length 0..=W)
+    pub burst: Vec<EP>,
 }
 
 impl Gen {
@@ -59,6 +62,7 @@ impl Gen {
             allow_inject: false,
             serde_ok: false,
             extra_keys: Vec::new(),
+            burst: Vec::new(),
         }
     }
 
@@ -298,6 +302,17 @@ impl Gen {
 
     /// next operation of a random-hostile history
     pub fn op(&mut self, m: &Model) -> Op {
+        // chain burst: only possible where the universe holds every length (the 8-bit type)
+        if let Some(k) = self.burst.pop() {
+            let k = self.host(k);
+            return Op::Insert(k, self.t());
+        }
+        if self.w == 8 && self.uni.len() >= 511 && self.rng.chance(1, 400) {
+            let leaf = EP::new(self.rng.u128() & mask(self.w), self.w);
+            let mut chain: Vec<EP> = (0..=self.w).map(|l| EP::new(leaf.bits, l).canon()).collect();
+            self.rng.shuffle(&mut chain);
+            self.burst = chain;
+        }
         self.advance_phase(m);
         // weights: [insert, entry, remove, keep_tree, remove_children, retain, clear, get_mut*, mut_trav, view_mut, replace]
         let mut w: [u32; 11] = match self.phase {
@@ -379,10 +394,26 @@ impl Gen {
                 let act = self.vact(m);
                 Op::ViewMut(prog, act)
             }
-            _ => Op::Replace(match self.rng.below(if self.serde_ok { 5 } else { 4 }) {
+            _ => Op::Replace(match self.rng.below(if self.serde_ok { 6 } else { 5 }) {
                 0 => ReplaceHow::Clone,
                 1 => ReplaceHow::IntoIterCollect,
                 2 | 3 => ReplaceHow::CollectShuffled(self.rng.next()),
+                4 => {
+                    // collect from a list with repeated keys (other host bits, other values): the last one wins
+                    let mut list: Vec<Item> = m.entries();
+                    let extra = 8 + self.rng.below(40);
+                    for _ in 0..extra {
+                        let k = if !list.is_empty() && self.rng.chance(2, 3) { list[self.rng.below(list.len())].0.canon() } else { self.random_uni() };
+                        let k = self.host(k);
+                        let t = self.t();
+                        list.push((k, t));
+                    }
+                    self.rng.shuffle(&mut list);
+                    if m.len() + extra > self.max_keys + 40 {
+                        list.truncate(self.max_keys + 40);
+                    }
+                    ReplaceHow::FromList(list)
+                }
                 _ => ReplaceHow::Serde,
             }),
         }
